@@ -80,6 +80,18 @@ def progress_rule(model: Model, run: Run) -> None:
     fa = filter_anchors(model)
     from ..regions import decode_region
     targets = [f.qualname for f in fa.parser_functions] + [r.fi.qualname for r in decode_region(model)]
+    # every `while <reader>:` loop of the decoders (messages, controls, filters, credentials)
+    from ..resolve import Resolver
+    rs = Resolver(model)
+    n_rd = 0
+    for fq, f2 in sorted(model.functions.items()):
+        if isinstance(f2.node, ast.Lambda) or f2.module == "sansldap.asn1" or fq in targets:
+            continue
+        loops = [x for x in walk_no_nested(f2.node) if isinstance(x, ast.While) and isinstance(x.test, ast.Name) and rs.env(f2).get(x.test.id) == ("inst", "sansldap.asn1.ASN1Reader")]
+        if loops:
+            targets.insert(len(targets) - 1, fq)
+            n_rd += len(loops)
+    run.floor("reader loops in the decoders", n_rd, 10)
     n = 0
     for q in targets:
         fi = model.functions.get(q)
@@ -95,7 +107,7 @@ def progress_rule(model: Model, run: Run) -> None:
             elif isinstance(t, ast.Name):
                 # `while reader:` - each iteration must call a read on it (or break/raise)
                 r = t.id
-                ok = consumes_on_all_paths(w.body, r)
+                ok = consumes_on_all_paths(w.body, r, model, fi)
                 why = f"`{r}` is not consumed on some path to the back edge" if not ok else ""
             run.ob("E2-scanner-progress", ok, {"function": q.split(".")[-1], "loop": norm(t)})
             if not ok:
@@ -103,7 +115,7 @@ def progress_rule(model: Model, run: Run) -> None:
     run.floor("scanner loops", n, 3)
     # no scanner call re-parses the same span: a recursive call inside an exception handler is a retry
     parser_names = {f.name for f in fa.scanners}
-    for q in targets[:-1]:
+    for q in [f.qualname for f in fa.parser_functions]:
         fi = model.functions[q]
         for h in [x for x in walk_no_nested(fi.node) if isinstance(x, ast.ExceptHandler)]:
             for c in ast.walk(h):
@@ -148,14 +160,96 @@ def advances_on_all_paths(body: List[ast.stmt], c: str):
     return (not bad), (f"a path reaches the back edge ({bad[0]}) without `{c} += ...`" if bad else "")
 
 
-def consumes_on_all_paths(body: List[ast.stmt], r: str) -> bool:
-    # first statement level: a call that passes r / calls a read on r, inside try or plain
-    for s in body:
-        for n in ast.walk(s):
+def consumes_on_all_paths(body: List[ast.stmt], r: str, model: Model = None, fi=None, _depth: int = 0) -> bool:
+    """Every path through `body` that reaches its end or a `continue` has consumed from reader `r`: a read_*/skip_value
+    call on r, or a call that is handed r and itself consumes on every normally returning path."""
+    def expr_consumes(e: ast.AST) -> bool:
+        for n in ast.walk(e):
             if isinstance(n, ast.Call):
-                if isinstance(n.func, ast.Attribute) and isinstance(n.func.value, ast.Name) and n.func.value.id == r and (n.func.attr.startswith("read") or n.func.attr in ("skip_value", "pop", "popleft")):
+                if isinstance(n.func, ast.Attribute) and isinstance(n.func.value, ast.Name) and n.func.value.id == r and \
+                        (n.func.attr.startswith("read") or n.func.attr in ("skip_value", "pop", "popleft")):
                     return True
-                if any(isinstance(a, ast.Name) and a.id == r for a in n.args):
-                    return True
+                for i, a in enumerate(list(n.args) + [k.value for k in n.keywords]):
+                    if isinstance(a, ast.Name) and a.id == r:
+                        if helper_consumes(n, i):
+                            return True
         return False
-    return False
+
+    def helper_consumes(call: ast.Call, argi: int) -> bool:
+        if model is None or fi is None or _depth > 3:
+            return True
+        q = model.resolve_name(fi.module, norm(call.func)) if isinstance(call.func, (ast.Name, ast.Attribute)) else None
+        callee = model.functions.get(q) if q else None
+        if callee is None or isinstance(callee.node, ast.Lambda):
+            return True          # a dispatched unpack callable / a class-level unpack: consumes its element or raises
+        ps = callee.params()
+        off = 1 if callee.cls and not callee.is_staticmethod else 0
+        pname = None
+        if argi < len(call.args):
+            pname = ps[argi + off] if argi + off < len(ps) else None
+        else:
+            k = call.keywords[argi - len(call.args)]
+            pname = k.arg
+        if pname is None:
+            return True
+        key = (callee.qualname, pname)
+        if key in _helper_memo:
+            return _helper_memo[key]
+        _helper_memo[key] = True      # recursion (nested filters): assume, then verify
+        body2 = callee.node.body
+        # abstract / dispatching base implementations raise or delegate
+        ok = consumes_on_all_paths(body2, pname, model, callee, _depth + 1) if not _is_dispatcher(callee) else True
+        _helper_memo[key] = ok
+        return ok
+
+    def walk(stmts, consumed: bool):
+        states = [consumed]
+        outs = []
+        for s in stmts:
+            nxt = []
+            for c in states:
+                if isinstance(s, ast.If):
+                    c2 = c or expr_consumes(s.test)
+                    for br in (s.body, s.orelse):
+                        for a2, kind in walk(br, c2):
+                            if kind == "end":
+                                nxt.append(a2)
+                            else:
+                                outs.append((a2, kind))
+                elif isinstance(s, ast.Try):
+                    for a2, kind in walk(s.body + s.orelse, c):
+                        (nxt if kind == "end" else outs).append(a2 if kind == "end" else (a2, kind))
+                    for h in s.handlers:
+                        for a2, kind in walk(h.body, c):
+                            (nxt if kind == "end" else outs).append(a2 if kind == "end" else (a2, kind))
+                elif isinstance(s, (ast.While, ast.For)):
+                    # an inner loop may run zero times; what it consumes is not counted
+                    nxt.append(c or (isinstance(s, ast.For) and expr_consumes(s.iter)))
+                elif isinstance(s, ast.With):
+                    c2 = c or any(expr_consumes(i.context_expr) for i in s.items)
+                    for a2, kind in walk(s.body, c2):
+                        (nxt if kind == "end" else outs).append(a2 if kind == "end" else (a2, kind))
+                elif isinstance(s, ast.Continue):
+                    outs.append((c, "continue"))
+                elif isinstance(s, (ast.Break, ast.Raise)):
+                    outs.append((c, "exit"))
+                elif isinstance(s, ast.Return):
+                    outs.append((c or (s.value is not None and expr_consumes(s.value)), "return"))
+                else:
+                    nxt.append(c or expr_consumes(s))
+            states = sorted(set(nxt))
+            if not states:
+                break
+        return outs + [(a, "end") for a in states]
+    res = walk(body, False)
+    back = ("end", "continue") if _depth == 0 else ("end", "return")
+    return not [k for a, k in res if k in back and not a]
+
+
+_helper_memo: dict = {}
+
+
+def _is_dispatcher(fi) -> bool:
+    """LDAPFilter.unpack / AuthenticationCredential.unpack style: picks a concrete unpack by the peeked tag and delegates."""
+    calls = [n for n in ast.walk(fi.node) if isinstance(n, ast.Call) and isinstance(n.func, ast.Attribute) and n.func.attr == "unpack"]
+    return bool(calls) and any(isinstance(n, ast.Raise) for n in ast.walk(fi.node))
